@@ -16,4 +16,5 @@ def run(ck):
     dispatch.spec_first_match_closure(ck)
     dispatch.spec_process_request(ck)
     dispatch.spec_cidr_match(ck)
+    dispatch.spec_source_address_mapping(ck)
     ck.post_filter = lambda o: o.label.startswith('C02/') or o.status in ('undecided', 'vacuous', 'inconclusive')
